@@ -46,6 +46,7 @@ func init() {
 	gwReg("c15", gw.RunC15)
 	gwReg("c12", gw.RunC12)
 	gwReg("c11", gw.RunC11)
+	gwReg("c10", gw.RunC10)
 	register("gw", "smoke", true, func(t *testing.T, r *sim.Run) { gw.PreBubble(); inBubble(t, true, func() { gw.RunSmoke(r) }) })
 	register("store", "c19", true, func(t *testing.T, r *sim.Run) { inBubble(t, true, func() { store.RunC19(r) }) })
 	register("tb", "c06", false, func(t *testing.T, r *sim.Run) { inBubble(t, false, func() { tb.RunC06(r) }) })
